@@ -39,6 +39,11 @@ type Baseline struct {
 	Obligations map[string]string `json:"obligations"`
 }
 
+// selftestMode (GOVC_SELFTEST=1, set by tools/selftest.sh for runs on mutated scratch copies): no second
+// attempt on undecided obligations and no replay construction; the question is only whether a violation
+// is reported.
+var selftestMode = os.Getenv("GOVC_SELFTEST") == "1"
+
 func cmdCheck(args []string) int {
 	fs := flag.NewFlagSet("check", flag.ExitOnError)
 	prop := fs.String("prop", "", "property id")
@@ -147,12 +152,12 @@ func cmdCheck(args []string) int {
 	newBase := map[string]string{}
 	usedSpecs := map[string]bool{}
 	notes := map[string]bool{}
-	os.RemoveAll(filepath.Join("/verif/replays", cfg.ID))
-	os.MkdirAll(filepath.Join("/verif/replays", cfg.ID), 0o755)
+	os.RemoveAll(filepath.Join(outRoot, "replays", cfg.ID))
+	os.MkdirAll(filepath.Join(outRoot, "replays", cfg.ID), 0o755)
 
 	report := func(ri *ReplayInfo) {
 		h := sha256.Sum256([]byte(ri.Obligation))
-		path := filepath.Join("/verif/replays", cfg.ID, fmt.Sprintf("%x.json", h[:6]))
+		path := filepath.Join(outRoot, "replays", cfg.ID, fmt.Sprintf("%x.json", h[:6]))
 		writeJSON(path, ri)
 		line := fmt.Sprintf("VIOLATION property=%s replay=%s obligation=%q", cfg.ID, path, ri.Obligation)
 		if !ri.Reproduced {
@@ -174,6 +179,10 @@ func cmdCheck(args []string) int {
 				for _, o := range r.Obligations {
 					if o.Status == "undecided" {
 						if _, isKnown := known[o.Name]; isKnown {
+							continue
+						}
+						if selftestMode {
+							retried[o] = SolveResult{Status: "timeout"}
 							continue
 						}
 						o, u := o, r.unit
@@ -320,7 +329,12 @@ func cmdCheck(args []string) int {
 				defer bwg.Done()
 				bsem <- struct{}{}
 				defer func() { <-bsem }()
-				ri := bj.u.buildReplay(bj.o, cfg.ID, 8)
+				var ri *ReplayInfo
+				if selftestMode {
+					ri = &ReplayInfo{Property: cfg.ID, Obligation: bj.o.Name, Kind: bj.o.Kind, Function: bj.o.Func, SolverSays: bj.o.Status, Reason: "selftest run: replay construction skipped"}
+				} else {
+					ri = bj.u.buildReplay(bj.o, cfg.ID, 8)
+				}
 				if bj.prefix != "" {
 					ri.Reason = strings.TrimSpace(bj.prefix + ri.Reason)
 				}
@@ -418,8 +432,8 @@ func cmdCheck(args []string) int {
 		"wall_s":      time.Since(t0).Seconds(),
 		"violations":  len(violations),
 	}
-	os.MkdirAll("/verif/evidence", 0o755)
-	if err := writeJSON(filepath.Join("/verif/evidence", cfg.ID+".json"), ev); err != nil {
+	os.MkdirAll(filepath.Join(outRoot, "evidence"), 0o755)
+	if err := writeJSON(filepath.Join(outRoot, "evidence", cfg.ID+".json"), ev); err != nil {
 		fmt.Fprintln(os.Stderr, "evidence:", err)
 		return 2
 	}
